@@ -53,6 +53,8 @@ type Compiled struct {
 	NoDrain bool
 	// KeyOf: the configuration's name -> key assignment, handed to every Env
 	KeyOf func(name string) int16
+	// Fetcher: how the caller built its fetcher type (CfgSpec.Fetcher)
+	Fetcher string
 	// constAggr: printed form of every list/set constant as it was configured
 	constAggr map[string]string
 }
@@ -85,7 +87,7 @@ func CompileSpec(cfg *CfgSpec, prog *Node, mask int, viaDirective bool, compileE
 	if viaDirective {
 		src = Directive(mask, cfg.DirStyle) + src
 	}
-	c = &Compiled{Conf: cc, Host: host, Src: src, Mask: mask, KeyOf: cfg.KeyOf}
+	c = &Compiled{Conf: cc, Host: host, Src: src, Mask: mask, KeyOf: cfg.KeyOf, Fetcher: cfg.Fetcher}
 	func() {
 		defer func() {
 			if r := recover(); r != nil {
@@ -178,7 +180,11 @@ func (c *Compiled) Run(ops map[string]*OpSpec, p *Plan, phase string) (o Outcome
 }
 
 func (c *Compiled) RunEnv(env *Env, kind string) (o Outcome) {
-	return c.RunCtx(&eval.Ctx{VariableFetcher: &SimFetcher{E: env}}, env, kind)
+	var names []string
+	if c.Fetcher != "" && env.Plan != nil {
+		names = sortedKeys(env.Plan.Bind)
+	}
+	return c.RunCtx(&eval.Ctx{VariableFetcher: WrapFetcher(c.Fetcher, &SimFetcher{E: env}, names)}, env, kind)
 }
 
 // RunCtx performs one call with a caller-owned Ctx (a request's Ctx that
